@@ -35,7 +35,9 @@ SWEEP = ["{ i = 0; k = 5; i++; k--; RdV = i + k; }", "{ clz32(RsV); clo32(RtV); 
          "{ i = 1; RdV = (i++ > 0) ? clz32(i) : 7; }", "{ i = 2; int32_t a = i++ + clz32(RsV); RdV = a + i--; }",
          "{ i = 0; RdV = ({ int32_t q = i++; q; }) + i++; }", "{ i = 0; i++; }"]
 PROBES = ["{ RdV = RsV + 1; }", "{ PdV = RsV; }", "{ if (RsV) { RdV = siV; } }", "{ RdV = clz32(RsV) + RtV; }", "{ EA = RsV; mem_store_u16(EA, RtV); }",
-          "{ i = 0; RdV = i++; }", "{ int8_t a = RsV; RddV = a; }"]
+          "{ i = 0; RdV = i++; }", "{ int8_t a = RsV; RddV = a; }",
+          "{ EA = RsV; RdV = ((int32_t)mem_load_s16(EA)); }", "{ EA = RsV; RdV = ((int32_t)mem_load_u16(EA)); }", "{ EA = RsV; RddV = ((int64_t)mem_load_s32(EA)); }",
+          "{ RddV = conv_round(RsV, 1); }", "{ int64_t v = conv_round(RsV, 1); RddV = v; }", "{ RddV = clz32(RsV); }", "{ RddV = RssV + clz32(RtV); }"]
 
 
 def norm(text: str) -> str:
@@ -142,6 +144,7 @@ def run(tier: str, replay=None) -> int:
     if tier == "quick":
         rng.shuffle(directed)
         directed = directed[:8]
+    fam = [p_ for p_ in PROBES if "mem_load" in p_ or "conv_round" in p_ or "clz32" in p_]
     n_hist += len(directed)
     for h in range(n_hist):
         HX.preds_written.clear()
@@ -248,6 +251,21 @@ def run(tier: str, replay=None) -> int:
                 break
         if stop:
             break
+    # the type-sensitive family (loads of both signednesses, the same routine's result used at several widths) in both orders
+    # on one instance each: a type object shared or cached between compilations makes the later ones depend on the earlier
+    for order, kind in ((fam, "cstmt"), (fam[::-1], "insn")):
+        c = rc.compiler("READ_STATEMENTS", fresh=True)
+        hist = []
+        for src in order + order:
+            real = do_call(c, kind, src)
+            ref = fresh_output(kind, src)
+            evals += 1
+            if real[:2] != ref[:2] or real[2] != ref[2]:
+                viol.append({"what": "output differs from the output of a fresh instance after behaviours using the same type family",
+                             "history": list(hist), "probe": [kind, src], "real": real, "fresh": ref,
+                             "reproduce": "replay the listed calls in order on ONE fresh Compiler instance, then the probe call; compare with a fresh instance"})
+                break
+            hist.append((0, kind, src, real[0]))
     # mixed behaviours on one instance
     for kind in ("cstmt", "insn"):
         c = rc.compiler("READ_STATEMENTS", fresh=True)
